@@ -122,7 +122,12 @@ class Walker:
         return self.atom(key, e, st)
 
     def atom(self, key, e, st):
-        """Linear form of an expression the environment knows nothing about."""
+        """Linear form of an expression the environment knows nothing about.  A value of unsigned type is >= 0."""
+        t = e.get("t") or {}
+        if t.get("k") in ("int", "bool") and t.get("signed") is False and st is not None:
+            c = (((key, 1),), 0)
+            if c not in st.cons:
+                st.cons.append(c)
         return {key: 1}, 0
 
     # ---- constraints
